@@ -334,6 +334,30 @@ def run(seed, tier, driver):
                 res.fail('C11', 'PMSITunnel.parse did not finish within the CPU budget', {'decoder': 'PMSITunnel.parse', 'hex': b.hex()}, key='hang')
             preqs.append({'op': 'c11.pmsi.parse', 'evpn': ev, 'hex': b.hex()})
             pios.append(io)
+    # round trip on the real code under exactly the hypotheses of C11_pmsi_roundtrip (LabelFits, FamilyKept): what
+    # PMSITunnel.construct writes is decoded back by PMSITunnel.parse
+    from yabgp.common import constants as bc
+    evpn_reach = {'afi_safi': (25, 70), 'nexthop': '10.75.44.254', 'nlri': []}
+    for kind, ad in (('mpls', {}), ('vni', {14: evpn_reach, 16: [[bc.BGP_EXT_COM_DICT['encapsulation'], 8]]}),
+                     ('vni', {14: evpn_reach, 16: [[bc.BGP_EXT_COM_DICT['encapsulation'], 9]]})):
+        lim = 2 ** 20 if kind == 'mpls' else 2 ** 24
+        for _ in range(40 if tier == 'quick' else 600):
+            leaf = r.choice([0, 1, 2, 127, 255])
+            label = r.choice([0, 1, 15, 16, 1000, lim - 1, r.randrange(lim)])
+            ip = r.choice([[4, 0], [4, 1], [4, 2 ** 32 - 1], [4, r.getrandbits(32)], [6, 2 ** 32], [6, 2 ** 128 - 1], [6, r.getrandbits(128) | 2 ** 32]])
+            co = IC.pmsi_construct(ad, leaf, 6, label, ip)
+            res.stats.case(('pmsi-rt', kind, leaf, label, tuple(ip)), sample=None)
+            res.stats.hit('pmsi_roundtrip_' + kind)
+            if 'hex' not in co:
+                res.disagree('PMSITunnel.construct refuses a value inside the hypotheses of C11_pmsi_roundtrip',
+                             {'overlay': kind, 'leaf': leaf, 'label': label, 'tunnel_id': ip}, co, {'hex': '...'})
+                continue
+            back = IC.pmsi_parse(bytes.fromhex(co['hex'])[3:], kind == 'vni')
+            exp = {'leaf': leaf, 'type': 6, 'label': label, 'tunnel_id': ip}
+            if back != exp:
+                # not a clause of C11 itself: the theorem is about the models, so a difference here is a broken tie
+                res.disagree('PMSITunnel.parse(PMSITunnel.construct(x)) != x inside the hypotheses of C11_pmsi_roundtrip',
+                             {'overlay': kind, 'hex': co['hex']}, back, exp)
     pres = driver.batch(preqs)
     for q, io, mo in zip(preqs, pios, pres):
         if 'error' in mo:
